@@ -353,10 +353,37 @@ pub fn next_action(t: &mut Tape, w: &World, weights: &[(Op, u32)]) -> Option<Act
                 _ => Message::StopBusListener(StopBusListener { serial, cookie }),
             }
         }
-        Op::Introspection => match t.below(3) {
-            0 => Message::RegisterIntrospection(RegisterIntrospection { value: payload(t, v) }),
-            _ => Message::QueryIntrospection(QueryIntrospection { serial, type_id: TypeId(Uuid::from_u128(0x7171)) }),
-        },
+        Op::Introspection => {
+            const TYPES: [u128; 2] = [0x7171, 0x7272];
+            match t.weighted(&[3, 4, 4]) {
+                0 => {
+                    let mut set = std::collections::HashSet::new();
+                    set.insert(TypeId(Uuid::from_u128(*t.pick(&TYPES))));
+                    if t.bool() {
+                        set.insert(TypeId(Uuid::from_u128(*t.pick(&TYPES))));
+                    }
+                    let value = if t.chance(12) { payload(t, v) } else { SerializedValue::serialize(&set).unwrap() };
+                    Message::RegisterIntrospection(RegisterIntrospection { value })
+                }
+                1 => Message::QueryIntrospection(QueryIntrospection { serial, type_id: TypeId(Uuid::from_u128(*t.pick(&TYPES))) }),
+                _ => {
+                    // mostly the asked provider answers the outstanding query
+                    let out: Vec<(C, u32)> = w.model.intros.values().filter_map(|e| e.queried).collect();
+                    let (from, s) = if !out.is_empty() && t.chance(225) {
+                        let (p, s) = *t.pick(&out);
+                        (if t.chance(230) { p } else { c }, s)
+                    } else {
+                        (c, serial)
+                    };
+                    if !w.model.conns.get(&from).map(|x| x.alive).unwrap_or(false) {
+                        return None;
+                    }
+                    let fv = w.model.conns[&from].minor;
+                    let result = if t.weighted(&[2, 1]) == 0 { QueryIntrospectionResult::Ok(payload(t, fv)) } else { QueryIntrospectionResult::Unavailable };
+                    return Some(Action::Inject(from, Message::QueryIntrospectionReply(QueryIntrospectionReply { serial: s, result })));
+                }
+            }
+        }
     };
     Some(Action::Inject(c, msg))
 }
